@@ -197,6 +197,6 @@ def case_for(seed):
         if r['outcome'] != ref['outcome']:
             e['kept'] = [-1]        # different outcome: kept sets differ by construction
         variants_enc.append(e)
-    return {'id': f're{seed}', 'ordered': False, 'ref': refe, 'variants': variants_enc,
+    return {'id': f're{seed}', 'ordered': False, 'tie_m': [], 'tie_g': [], 'ref': refe, 'variants': variants_enc,
             'meta': {'driver': 'reencode.case_for', 'args': {'seed': seed}, 'cls': spec['cls'], 'ref_outcome': ref['outcome'],
                      'ref_exc': ref.get('exc'), 'variant_kinds': [k for k, _ in runs]}}
